@@ -63,6 +63,10 @@ def check(run):
     keepreading(R)
     echobound(R)
     C14.swallow(R, RID='C08.pongclosing')
+    from . import C15
+    R.rule('C08.timeout', 'a client-initiated close that gets no reply ends through the close timeout (time recorded '
+                          'when the Close is sent, tested on every loop iteration)', 3)
+    C15.close(R, RID='C08.timeout', rearm=False)    # a postponed timeout is C15's / C07's business, not this property's
 
 
 def _flag_stores(R, flag):
@@ -173,6 +177,14 @@ def onlyclose(R, RID='C08.onlyclose'):
     R.ob(RID, 'every send attempt enters the closing state', ok,
          'close() can return normally after attempting the Close send without setting closing (e.g. when the send '
          'failed after the bytes went out): later sends and a second Close are not refused', func=q, node=c)
+    # ... and only a send attempt does: when _send_close() raised (a refused payload - ValueError - leaves nothing on the
+    # wire) the websocket must stay open for business, Pongs included
+    after_exc = g.reachable([m for (m, l) in n.succ if l.startswith('exc:')])
+    bad = [m for m in st if m in after_exc]
+    R.ob(RID, 'closing is not entered when _send_close() raised', not bad,
+         'close() sets state.closing also when _send_close() raised before writing anything (oversized reason, bad code): '
+         'no Close frame is on the wire, yet every later send - automatic Pongs included - is refused as "closing"',
+         func=q, node=(bad[0].ast if bad else c), construct='closing set after failed _send_close')
     cf = R.func(q)
     a0, a1 = (c.args + [None, None])[:2]
     ok = a0 is not None and a1 is not None and U(a0) == cf.params[1] and U(a1) == cf.params[2]
